@@ -209,6 +209,9 @@ class ConfigGraph:
                     rep.ob("R17.6-self-clocked-create", not creates, self.loc(other), f"{other.tag} creates {t.tag}",
                            f"`{t.tag}` advances its own clock by one interval every time it is asked for a candidate; "
                            f"being re-created by `{other.tag}` skips a period")
+                    rep.ob("R17.6-self-clocked-always-active", t.tag not in other.deactivate, self.loc(other), f"{other.tag} deactivates {t.tag}",
+                           f"a deactivated tagger yields no in-state: the event of `{t.tag}` that fires while it is deactivated re-creates "
+                           f"nothing and the clock of `{t.tag}` stops for the rest of the run")
                     trashes = t.tag in other.trash and not (other.facts and other.facts.ends_run)
                     rep.ob("R17.6-self-clocked-trash", not trashes, self.loc(other), f"{other.tag} trashes {t.tag}",
                            f"`{t.tag}` is self-clocked; trashing its pending event from `{other.tag}` loses a period")
